@@ -721,8 +721,10 @@ def check_C15(res, ctx):
         cfg = engine.rand_cfg(rng, io=(1 if i % 7 == 6 else 0))
         cfg["idx"] = 1 + i % 3
         w = {"reopen": 1, "merge": 1, "batch": 25 if i % 2 else 6, "put": 30, "get": 15}
-        g = engine.Gen(rng, cfg, nkeys=rng.choice([3, 6]), weights=w, max_val=rng.choice([200, 3000]))
+        # every fourth run has values of one to three blocks (multi-chunk records are reassembled in a pooled buffer)
+        g = engine.Gen(rng, cfg, nkeys=rng.choice([3, 6]), weights=w, max_val=(3 * engine.BS if i % 4 == 3 else rng.choice([200, 3000])))
         ops = g.history(60 if ctx.quick else 120)
+        res.count("runs_with_multi_block_values" if i % 4 == 3 else "runs_with_small_values")
         # sprinkle checks that slices returned earlier are unchanged
         out_ops = ["scribble on"]
         for k, op in enumerate(ops):
@@ -1150,6 +1152,50 @@ def check_C20(res, ctx):
                           {"ops": ops[:k + 1], "code": x, "model": y, "correspondence": "engine line protocol"}, no_input=True)
         if i < 1:
             res.sample({"ops_tail": ops[-30:]})
+    # a backup INTO THE DIRECTORY OF AN EARLIER BACKUP, after a merge and its adoption have replaced data files of the source by
+    # shorter ones: the copy must be the source's files, not the new bytes followed by the tail of the old copy
+    for i in range(4 if ctx.quick else 40):
+        rng = rng_for(ctx.seed, "C20r", i)
+        io = i % 2
+        cfg = {"fs": rng.choice([4096, 8192]), "sync": 0, "bps": 0, "idx": rng.choice([1, 2, 3]), "io": io, "shards": 4}
+        keys = ["%02x%02x" % (97 + j, 97 + j) for j in range(6)]
+        seed = rng.randrange(1000)
+        ops = [engine.open_line("d", cfg)]
+        for r in range(3):
+            for k in keys:
+                seed += 1
+                ops.append("put %s p%d:%d" % (k, seed, rng.choice([300, 700, 1100, 1500])))
+        ops += ["backup bk", "del " + keys[0]]
+        for k in keys[1:4]:
+            seed += 1
+            ops.append("put %s p%d:%d" % (k, seed, rng.choice([10, 333, 900])))
+        ops += ["merge", "close", engine.open_line("d", cfg)]
+        for k in keys[2:5]:
+            seed += 1
+            ops.append("put %s p%d:%d" % (k, seed, rng.choice([20, 450, 1300])))
+        at_backup = len(ops) + 1
+        ops += ["backup bk", "dump", "put %s x01" % keys[5], "close", "files bk", engine.open_line("bk", dict(cfg, io=0)), "dump", "close"]
+        base = ctx.scratch.fresh()
+        try:
+            outs = run_impl(ops, base, timeout=300)
+        finally:
+            ctx.scratch.drop(base)
+        res.evaluations += 1
+        res.count("rebackup_runs")
+        res.distinct.add("rebackup:%d:%s" % (i, outs[at_backup][:60]))
+        bad = [(op, o) for op, o in zip(ops, outs) if o.startswith(("panic", "died", "err:", "bad:")) and not op.startswith("get")]
+        if bad:
+            res.violation("backup into the directory of an earlier backup (run %d, io=%d): `%s` -> %s" % (i, io, bad[0][0], bad[0][1]), {"ops": ops})
+            continue
+        if outs[-2] != outs[at_backup]:
+            res.violation("backup into the directory of an earlier backup (run %d, io=%d): the copy opens to %s, the source had %s when Backup was called" % (
+                i, io, outs[-2][:200], outs[at_backup][:200]), {"ops": ops})
+            continue
+        d = diff_model(res, ctx, ops, outs, "C20 re-backup %d" % i)
+        if d is not None:
+            k, x, y = d
+            res.violation("correspondence broke on re-backup run %d at `%s`: code=%s model=%s" % (i, ops[k], x[:200], y[:200]),
+                          {"ops": ops[:k + 1], "code": x, "model": y, "correspondence": "engine line protocol"}, no_input=True)
     # backups taken while a writer and several readers keep going: "the source is unaffected and remains usable"
     from . import conccheck
     for io in ((1, 0) if ctx.quick else (1, 0, 1, 1)):
